@@ -37,6 +37,7 @@ type loopStore struct {
 	stores     int
 	lists      int
 	cleanLists int  // List calls made by the instance's cleaner
+	failLoads  int  // the next Load calls fail (transient download failures)
 	dead       bool // the instance "crashed": nothing it still attempts reaches the bucket
 }
 
@@ -73,6 +74,17 @@ func (f *loopStore) List(ctx context.Context, prefix string) (simpleblob.BlobLis
 	}
 	f.mu.Unlock()
 	return f.Interface.List(ctx, prefix)
+}
+
+func (f *loopStore) Load(ctx context.Context, name string) ([]byte, error) {
+	f.mu.Lock()
+	if f.failLoads > 0 {
+		f.failLoads--
+		f.mu.Unlock()
+		return nil, errInjected
+	}
+	f.mu.Unlock()
+	return f.Interface.Load(ctx, name)
 }
 
 func (f *loopStore) Delete(ctx context.Context, name string) error {
@@ -382,6 +394,14 @@ func init() {
 				_ = fleetStore.Delete(context.Background(), n)
 			}
 		}
+		return "ok"
+	}
+	// loop.loadfail <id> <n>: the next n downloads of this instance fail (and are retried)
+	implOps["loop.loadfail"] = func(a []string) string {
+		l := loops[a[0]]
+		l.fs.mu.Lock()
+		l.fs.failLoads = int(u64(a[1]))
+		l.fs.mu.Unlock()
 		return "ok"
 	}
 	// loop.clean <id> <now>: one run of the instance's own cleaner on the shared bucket
